@@ -170,6 +170,23 @@ def main(argv):
             d['file'] = d['file'] + decoys_for(c, None, rng)
             cases.append(d)
             kinds.append('with-unrelated')
+    # lookups whose scope and name concatenate to the same dotted name but split differently, built one after the other in one
+    # process: (name A.B.I from the global scope) then (name I from scope A.B), and the other way round with P.Q
+    def split_case(itfs, comp_scope, ref, tag):
+        tree = []
+        for s in itfs:
+            GB.place(tree, s[:-1], ['extern', ['T'], f'type_{len(s) % 4}_t']) if not any(d[0] == 'extern' for d in tree) else None
+            GB.place(tree, s, ['itf', ['I'], [], [['Do', 'in', ['void'], []], ['Done', 'out', ['void'], []]]])
+        GB.place(tree, comp_scope, ['comp', ['C'], [['p', ref, 'provides', False], ['r', ref, 'requires', False]]])
+        return {'file': tree, 'cfg': {'file': 'C.dzn', 'enc': comp_scope + ['C'], 'ports': {'p': [['w', 'none'], ['w', 'all']], 'r': [['w', 'none'], ['w', 'all']]}}}
+    for c in (split_case([['A', 'B']], [], ['A', 'B', 'I'], 'full'), split_case([['A']], ['A', 'B'], ['I'], 'simple'),
+              split_case([['P']], ['P', 'Q'], ['I'], 'simple'), split_case([['P', 'Q'], ['P']], [], ['P', 'Q', 'I'], 'full')):
+        cases.append(c)
+        kinds.append('split-coincidence')
+        d = copy.deepcopy(c)
+        d['file'] = d['file'] + decoys_for(c, None, rng)
+        cases.append(d)
+        kinds.append('with-unrelated')
     io, mo = BC.run_builds(cases, timeout=3000)
     nv = nfail = 0
     text_only, any_failing = [], False
